@@ -47,6 +47,9 @@ type state struct {
 	ext  map[string]int // reference: address -> index on the external chain / the only chain
 	chg  map[string]int
 	nkey int
+	// reference entries (address -> entry of the UNENCRYPTED single-batch wallet of the same seed)
+	ref    map[string]wallet.Entry
+	locked bool
 }
 
 var cur *state
@@ -120,7 +123,7 @@ func entriesOf(w wallet.Wallet, opts ...wallet.Option) []cipher.Addresser {
 
 func (s *state) view() string {
 	last := "-"
-	if s.typ == "deterministic" {
+	if s.typ == "deterministic" && !s.locked {
 		last = ab(s.w.LastSeed())
 	}
 	if s.typ == "bip44" {
@@ -130,11 +133,19 @@ func (s *state) view() string {
 }
 
 func doReset(typ string, seed []byte, M int) string {
-	s := &state{typ: typ, seed: seed, ext: map[string]int{}, chg: map[string]int{}}
+	s := &state{typ: typ, seed: seed, ext: map[string]int{}, chg: map[string]int{}, ref: map[string]wallet.Entry{}}
+	remember := func(w wallet.Wallet) {
+		es, err := w.GetEntries()
+		must(err)
+		for _, e := range es {
+			s.ref[e.Address.String()] = e
+		}
+	}
 	out := "ok"
 	switch typ {
 	case "deterministic":
 		ref := fresh(typ, seed, M)
+		remember(ref)
 		as := entriesOf(ref)
 		for i, a := range as {
 			s.ext[a.String()] = i
@@ -150,6 +161,7 @@ func doReset(typ string, seed []byte, M int) string {
 		// the constructor generated M external (and one change) entries; extend the change chain in one batch
 		_, err := ref.GenerateAddresses(wallet.OptionGenerateN(uint64(M-1)), wallet.OptionChange())
 		must(err)
+		remember(ref)
 		ea, ca := entriesOf(ref, wallet.OptionExternal()), entriesOf(ref, wallet.OptionChange())
 		for i, a := range ea {
 			s.ext[a.String()] = i
@@ -161,6 +173,7 @@ func doReset(typ string, seed []byte, M int) string {
 		s.w = fresh(typ, seed, 1)
 	case "xpub":
 		ref := fresh(typ, seed, M)
+		remember(ref)
 		as := entriesOf(ref)
 		for i, a := range as {
 			s.ext[a.String()] = i
@@ -234,6 +247,46 @@ func c17Exec(op string) string {
 			return "err " + cur.view()
 		}
 		return "ok new=" + abAddrs(as) + " " + cur.view()
+	case "ggen": // what Service.NewAddresses does for a locked wallet: unlock, derive, lock again
+		opts := []wallet.Option{wallet.OptionGenerateN(PU64(f[1]))}
+		if len(f) > 2 && f[2] == "chg" {
+			opts = append(opts, wallet.OptionChange())
+		}
+		var as []cipher.Addresser
+		err := wallet.GuardUpdate(cur.w, []byte("pw"), func(w wallet.Wallet) error {
+			var err error
+			as, err = w.GenerateAddresses(opts...)
+			return err
+		})
+		if err != nil {
+			return "err " + cur.view()
+		}
+		return "ok new=" + abAddrs(as) + " " + cur.view()
+	case "gscan":
+		var as []cipher.Addresser
+		err := wallet.GuardUpdate(cur.w, []byte("pw"), func(w wallet.Wallet) error {
+			var err error
+			as, err = w.ScanAddresses(PU64(f[1]), finder{cur, idxSet(f[2]), idxSet(f[3])})
+			return err
+		})
+		if err != nil {
+			return "err " + cur.view()
+		}
+		return "ok new=" + abAddrs(as) + " " + cur.view()
+	case "lock":
+		if err := cur.w.Lock([]byte("pw")); err != nil {
+			return "err lock"
+		}
+		cur.locked = true
+		return "ok " + cur.view()
+	case "unlock":
+		w, err := cur.w.Unlock([]byte("pw"))
+		if err != nil {
+			return "err unlock"
+		}
+		cur.w = w
+		cur.locked = false
+		return "ok " + cur.view()
 	case "reload":
 		b, err := cur.w.Serialize()
 		must(err)
@@ -286,17 +339,27 @@ func c17Exec(op string) string {
 		}
 		return "ok new=" + abAddrs(as) + " want=" + strings.Join(want, ",") + " " + cur.view()
 	case "verify":
-		es, err := cur.w.GetEntries()
+		es, err := cur.w.GetEntries() // bip44: external and change chain
 		must(err)
 		for i, e := range es {
 			var err error
-			if cur.typ == "xpub" {
+			if cur.typ == "xpub" || cur.locked {
 				err = e.VerifyPublic()
 			} else {
-				err = e.Verify()
+				err = e.Verify() // address of pubkey, pubkey of the secret key
 			}
 			if err != nil {
 				return fmt.Sprintf("bad %d", i)
+			}
+			// the entry must be the entry the unencrypted single-batch wallet of the same seed holds
+			if cur.typ != "collection" {
+				r, ok := cur.ref[e.Address.String()]
+				if !ok || r.Public != e.Public {
+					return fmt.Sprintf("bad-ref %d", i)
+				}
+				if cur.typ != "xpub" && !cur.locked && r.Secret != e.Secret {
+					return fmt.Sprintf("bad-secret %d", i)
+				}
 			}
 		}
 		return "ok consistent"
@@ -339,18 +402,39 @@ func c17Gen(r *Rng, tier string, emit func(string)) {
 			ne = 1
 		}
 		nops := 4 + r.Intn(8)
+		canLock := typ == "deterministic" || typ == "bip44"
+		locked := false
 		for i := 0; i < nops; i++ {
+			if canLock && !locked && r.Chance(25) {
+				emit("lock")
+				locked = true
+				continue
+			}
+			if locked && r.Chance(25) {
+				emit("unlock")
+				emit("verify")
+				locked = false
+				continue
+			}
+			guarded := locked && (typ == "deterministic" || r.Chance(30)) // through GuardUpdate
 			switch r.Intn(6) {
 			case 0, 1:
 				n := r.Intn(5)
-				if typ == "bip44" && r.Chance(35) {
+				name := "gen"
+				if guarded {
+					name = "ggen"
+				}
+				if typ == "bip44" && r.Chance(45) {
 					if nc+n <= M-1 {
-						emit(fmt.Sprintf("gen %d chg", n))
+						emit(fmt.Sprintf("%s %d chg", name, n))
 						nc += n
 					}
 				} else if ne+n <= M {
-					emit(fmt.Sprintf("gen %d", n))
+					emit(fmt.Sprintf("%s %d", name, n))
 					ne += n
+				}
+				if locked && typ == "deterministic" && r.Chance(20) {
+					emit(fmt.Sprintf("gen %d", 1+r.Intn(3))) // refused: the wallet is encrypted
 				}
 			case 2, 3:
 				n := r.Intn(6)
@@ -380,7 +464,11 @@ func c17Gen(r *Rng, tier string, emit func(string)) {
 				if typ == "bip44" {
 					ca, kc = pick(nc)
 				}
-				emit(fmt.Sprintf("scan %d %s %s", n, ea, ca))
+				name := "scan"
+				if guarded {
+					name = "gscan"
+				}
+				emit(fmt.Sprintf("%s %d %s %s", name, n, ea, ca))
 				if n > 0 {
 					ne += ke
 					nc += kc
@@ -388,8 +476,14 @@ func c17Gen(r *Rng, tier string, emit func(string)) {
 			case 4:
 				emit("reload")
 			case 5:
-				emit("relock")
+				if !locked {
+					emit("relock")
+				}
 			}
+		}
+		if locked {
+			emit("verify") // public part while locked
+			emit("unlock")
 		}
 		emit("verify")
 	}
